@@ -1,4 +1,32 @@
 (* Property C10: textual MIR written by MIR_output reads back as the same module.
-   Only the property theorems, each closed by [exact] and followed by Print Assumptions. *)
+   Only the property theorems, each closed by [exact] and followed by Print Assumptions.
+   Model: coq/C10/TextOut.v (the MIR_output functions), coq/C10/TextScan.v (scan_number, scan_string, scan_token,
+   MIR_scan_string), coq/C10/FloatFmt.v (libc printf/strtod oracles). *)
 From Coq Require Import List ZArith NArith.
-From MirV Require Import C11.Ast C10.TextOut C10.TextScan C10.TextProofs.
+From MirV Require Import Base.W64 C11.Ast C11.BinIO C11.BinIOProofs C10.TextOut C10.TextScan C10.TextProofs.
+Import ListNotations.
+Local Open Scope Z_scope.
+
+(* scan_string inverts MIR_output_str on every byte string (all 256 byte values: the backslash escapes for
+   backslash, double quote, n t v a b f, printable characters, three-digit octal for the rest), consuming exactly
+   the literal; the token then carries [nul_terminate s] (a NUL is appended to a non-empty string
+   lacking one), which is idempotent and the identity on strings ending in NUL. *)
+Theorem text_str_roundtrip : forall s tail, is_bytes s ->
+  scan_str (S (length s)) (tl (output_str s) ++ tail) [] = Some (s, tail)
+  /\ nul_terminate (nul_terminate s) = nul_terminate s
+  /\ (s = [] \/ last s 1%N = 0%N -> nul_terminate s = s).
+Proof. exact text_str_roundtrip_lemma. Qed.
+Print Assumptions text_str_roundtrip.
+
+(* decimal printing of any int64 (PRId64) / uint64 (PRIu64) re-read by strtoul (with its
+   wrap-around on '-') is the same 64-bit pattern *)
+Theorem text_int_roundtrip :
+  (forall z, in_s64 z -> s64 (strtoul 10 (p_int z)) = z)
+  /\ (forall u, in_u64 u -> strtoul 10 (p_nat u) = u /\ u64 (s64 (strtoul 10 (p_nat u))) = u).
+Proof. exact text_int_roundtrip_lemma. Qed.
+Print Assumptions text_int_roundtrip.
+
+(* the text does not show what a binary read normalises: C11's "prints to the same text" *)
+Theorem text_print_norm : forall fF fD fLD ms, p_ctx fF fD fLD (map norm_module ms) = p_ctx fF fD fLD ms.
+Proof. exact p_ctx_norm. Qed.
+Print Assumptions text_print_norm.
